@@ -799,7 +799,19 @@ func (c *Conn) finish(r *Ctx, stream uint32, err error) {
 		atomic.AddInt32(&c.openStreams, -1)
 	}
 
-	c.deletePending(stream)
+	// The caller, dispatch, holds r already. deletePending takes the Ctx itself
+	// to close a streamed request body, and the lock is not reentrant: a
+	// response that arrived while such a body was still waiting for window
+	// (an early 4xx, say) left the read loop waiting for a lock it held, and
+	// with it every request on the connection.
+	c.sendLck.Lock()
+	pb := c.pending[stream]
+	delete(c.pending, stream)
+	c.sendLck.Unlock()
+
+	if pb != nil && pb.stream != nil && pb.ctx == r {
+		c.closeBodyStream(pb)
+	}
 
 	r.markFinished()
 
